@@ -145,7 +145,7 @@ def run(ctx):
                                    defines=dict(byz, MaxUpdates=3, MaxGap=2, MaxEvents=3) if quick
                                    else dict(byz, MaxUpdates=4, MaxGap=3, MaxEvents=3))   # = every behaviour with <=3 events
         jobs["sim"] = pool.submit(ctx.tlc, "ChattyMC", "Chatty_sim.cfg", timeout=900 if quick else 2400, workers=4,
-                                  simulate="num=%d" % (80 if quick else 1200), depth=80, extra=["-seed", str(ctx.seed)], defines=byz or None)
+                                  simulate="num=%d" % (80 if quick else 600), depth=80, extra=["-seed", str(ctx.seed)], defines=byz or None)
         if not quick:
             jobs["rst"] = pool.submit(ctx.tlc, "ChattyMC", "Chatty_mc.cfg", timeout=2400, workers=4,
                                       defines=dict(byz, MaxEvents=ev - 1, Restart="TRUE"))
@@ -169,7 +169,7 @@ def run(ctx):
         keys.setdefault(json.dumps(h, sort_keys=True), h)
     behs = [{"id": i + 1, "src": "emit", "vals": VALS3, "steps": keys[k]} for i, k in enumerate(sorted(keys))]
     n_emit = len(behs)
-    cap = 60000 if quick else 300000
+    cap = 20000 if quick else 300000     # quick: seeded sample of the exhaustive set
     if n_emit > cap:                       # keep the run bounded: deterministic thinning by seed
         import random
         behs = random.Random(ctx.seed).sample(behs, cap)
@@ -195,7 +195,7 @@ def run(ctx):
     ctx.go_test(PKG, "", overlay=ov, compile_only=True, binary=binary)
     emit_b = [b for b in behs if b["src"] == "emit"]
     sim_b = [b for b in behs if b["src"] == "sim"]
-    every = max(1, len(emit_b) // (1500 if quick else 10000))      # simulated behaviours are always traced
+    every = max(1, len(emit_b) // (1000 if quick else 10000))      # simulated behaviours are always traced
     recs, trace1, crash1 = _run_harness(ctx, binary, behs, "replay", every)
     crash2 = []
     byid = {b["id"]: b for b in behs}
@@ -282,7 +282,7 @@ def run(ctx):
         "code_variant": variant, "update_classes_seen": classes,
         "evaluations": tot["steps"], "distinct_nontrivial": tot["distinct"],
         "rule": "one evaluation = Sound and Complete evaluated on the real broadcasts at the quiescent point after one real NetworkViewUpdate; distinct_nontrivial = distinct (update, real broadcast list) pairs counted in a set by the harness",
-        "exhaustive": True,
+        "exhaustive": True, "replay_exhaustive": n_emit == len(emit_b),
         "exhaustive_scope": "all engine-producible behaviours of the 3-validator/2-id/2-height/2-round universe with <= %d mirror events (TLC) and all with %s (replayed on the code)" % (ev, "<=3 deliveries, <=3 events, <=2 events between deliveries, one block id + nil" if quick else "<=3 events, any number of deliveries, two block ids + nil"),
     }
     return ctx.finish("model_checking", extra_cov=cov)
